@@ -52,6 +52,10 @@ type FunctionCall struct {
 func (fv *FunctionValidator) extractFunctionCalls(expression string) []FunctionCall {
 	var functionCalls []FunctionCall
 
+	// The text of string literals is data, not syntax: 'foo(x' calls nothing. Blank it out
+	// (positions are kept) before looking for identifier( patterns.
+	expression = blankQuotedText(expression)
+
 	// Use regex to match function call patterns: identifier(
 	funcPattern := regexp.MustCompile(`([a-zA-Z_][a-zA-Z0-9_]*)\s*\(`)
 	matches := funcPattern.FindAllStringSubmatchIndex(expression, -1)
@@ -74,6 +78,23 @@ func (fv *FunctionValidator) extractFunctionCalls(expression string) []FunctionC
 	}
 
 	return functionCalls
+}
+
+// blankQuotedText replaces the characters between single or double quotes by blanks.
+func blankQuotedText(expression string) string {
+	b := []byte(expression)
+	var quote byte
+	for i, c := range b {
+		switch {
+		case quote == 0 && (c == '\'' || c == '"'):
+			quote = c
+		case quote != 0 && c == quote:
+			quote = 0
+		case quote != 0:
+			b[i] = ' '
+		}
+	}
+	return string(b)
 }
 
 // isBuiltinFunction checks if it's a built-in function using the unified function registry
